@@ -5,6 +5,10 @@ using namespace altintegration;
 #ifndef OUTMAX
 #define OUTMAX 48
 #endif
+#ifdef VSTD_ALLOC_LIMIT_DYN
+extern "C" { size_t vstd_alloc_limit; }
+#endif
+static bool read_item_u8(ReadStream& stream, uint8_t& out, ValidationState& state) { return stream.readBE(out, state); }
 extern "C" {
 size_t nondet_size_t();
 void* nondet_ptr();
@@ -186,4 +190,19 @@ size_t w_networkByte(uint8_t hasValue, uint8_t value, uint8_t typeId, uint8_t* o
   return n;
 }
 void h_networkByte() { w_networkByte(nondet_u8(), nondet_u8(), nondet_u8(), (uint8_t*)nondet_ptr(), (uint8_t*)nondet_ptr(), (int*)nondet_ptr()); REACH; }
+
+#ifdef VSTD_ALLOC_LIMIT_DYN
+// array of one-byte items: [count: single BE int32][count items]; out2 = {number of items read, first item}
+int w_readArrayOf(void* rs, size_t min, size_t max, size_t* out2) {
+  std::vector<uint8_t> v;
+  ValidationState st;
+  vstd_alloc_limit = max;   // C06: nothing above the declared maximum is ever requested from the allocator
+  bool ok = readArrayOf<uint8_t>(*(ReadStream*)rs, v, st, min, max, read_item_u8);
+  CONSISTENT(ok, st);
+  out2[0] = v.size();
+  out2[1] = v.size() > 0 ? v.data()[0] : 0;
+  return ok;
+}
+void h_readArrayOf() { check_layout(); w_readArrayOf(nondet_ptr(), nondet_size_t(), nondet_size_t(), (size_t*)nondet_ptr()); REACH; }
+#endif
 }
